@@ -53,9 +53,10 @@ inductive Underlying where
 /-- what the translated functions ask go/types about a `types.Type`: `basic` = `Underlying().(*types.Basic)`
 (`none`: the assertion fails) with its `Kind()`; `typesImplements pkg name` = `types.Implements(T, I)` and
 `gcTypeImplements pkg name` = `gencommon.TypeImplements(T, I)` for the interface `I` that
-`gencommon.FindIFaceDef(pkg, name)` finds -/
+`gencommon.FindIFaceDef(pkg, name)` finds; `defaultTypeId` = the class of `types.Default(T)` under `types.Identical` -/
 structure GType where
   basic : Option BasicKind
+  defaultTypeId : Nat
   typesImplements : String → String → Bool
   gcTypeImplements : String → String → Bool
   deriving Inhabited
@@ -219,6 +220,7 @@ def validateParsableTraits_err1 : String := "Enum: %s cannot have parsableTrait 
 def validateParsableTraits (enumType : String) (traits : List GTraitDesc) : Go.M (List GTraitDesc × Option String) := do
   let mut traits := traits
   let mut parsableTraitResults : Go.KV String String := ([] : Go.KV String String)
+  let mut parsableTraitTypes : Go.KV String (List GType) := ([] : Go.KV String (List GType))
   for k3 in List.range' 0 (List.length traits) do
     let mut trait : GTraitDesc := (← Go.listGet traits k3)
     if trait.Parsable then
@@ -230,9 +232,12 @@ def validateParsableTraits (enumType : String) (traits : List GTraitDesc) : Go.M
         if ok then
           if (parseTo != «instance».OwningValue.Name) then
             return (traits, (some validateParsableTraits_err1))
-          trait := { trait with Traits := (← Go.listSet trait.Traits i { (← Go.listGet trait.Traits i) with repeatsParseKey := true }) }
-          traits ← Go.listSet traits k3 trait
+          for seen in (Option.getD (Go.kvGet parsableTraitTypes «instance».value) default) do
+            if (seen.defaultTypeId == trait.«Type».defaultTypeId) then
+              trait := { trait with Traits := (← Go.listSet trait.Traits i { (← Go.listGet trait.Traits i) with repeatsParseKey := true }) }
+              traits ← Go.listSet traits k3 trait
         parsableTraitResults := Go.kvSet parsableTraitResults «instance».value «instance».OwningValue.Name
+        parsableTraitTypes := Go.kvSet parsableTraitTypes «instance».value ((Option.getD (Go.kvGet parsableTraitTypes «instance».value) default) ++ [trait.«Type»])
   return (traits, none)
 
 /-- `func processDuplicates(values Values, traits TraitDescs, enumTypeName string)` -/
